@@ -180,6 +180,16 @@ impl MemoryManager {
     }
 }
 
+impl Drop for MemoryManager {
+    fn drop(&mut self) {
+        // nobody can hold a pointer any more: release what was still waiting for an epoch
+        let mut waiting = self.wait_to_free.lock().unwrap();
+        for val in waiting.drain(..) {
+            val.delete();
+        }
+    }
+}
+
 impl Drop for MemoryManagerInner {
     fn drop(&mut self) {
         for val in self.tofree.drain(..) {
